@@ -615,7 +615,10 @@ class SlotNode(BaseNode):
             return context
         elif registry_settings.context_behavior in (ContextBehavior.ISOLATED, ContextBehavior.DJANGO):
             outer_context = component_ctx.outer_context
-            return outer_context if outer_context is not None else Context()
+            # NOTE: We render the fill with a copy, because all fills of the component share the same outer context,
+            # and one of them may be rendered while another one is being rendered (e.g. when the latter renders
+            # the slot's default content). The variables and aliases of the latter must not be visible in the former.
+            return copy(outer_context) if outer_context is not None else Context()
         else:
             raise ValueError(f"Unknown value for context_behavior: '{registry_settings.context_behavior}'")
 
